@@ -60,5 +60,11 @@ def quiet_breezy():
     if getattr(breezy, "_global_state", None) is None:
         breezy.initialize()
     ui.ui_factory = ui.SilentUIFactory()
+    import logging
+
+    lg = logging.getLogger("brz")
+    for h in list(lg.handlers):
+        if getattr(h, "stream", None) is not None and h.stream in (sys.stderr, sys.stdout):
+            lg.removeHandler(h)
     import breezy.bzr  # noqa: F401 - registers formats
     import breezy.git  # noqa: F401
